@@ -6,16 +6,17 @@ What the extracted model provides (Model/Euclid.v, Model/EuclidLP.v, theorems in
   c19.refuted  verified necessary conditions (C19_refute_sound): a profile that is not single-peaked or not
                single-crossing has no embedding, so the implementation must answer False
   c19.decide   verified EXACT reference decider (eucl_decide_correct: Fourier-Motzkin elimination over Q for every
-               axis on which the profile is single-peaked); doubly exponential, run for m <= 6 and n <= 6
+               axis on which the profile is single-peaked); doubly exponential, run for m <= 6 and n <= 12
 The correspondence therefore has three parts:
   (1) planted 1-Euclidean profiles: the generator's own embedding is accepted by c19.check, hence (planted_sound)
       the profile IS 1-Euclidean: the implementation must answer True and its map must pass c19.check;
-  (2) small profiles (m <= 6, n <= 6): the verdict must equal c19.decide; the witness of a True answer must pass
+  (2) small profiles (m <= 6, n <= 12): the verdict must equal c19.decide; the witness of a True answer must pass
       c19.check; c19.refuted is evaluated as well (refuted => decide says False: cross-check of the model);
   (3) the verdict must not depend on the storage order of the ballots (case op c19.orders: every storage
       order must get the verdict of c19.decide).
-The pinned implementation is known to be broken (open known findings KF-C19-a/b/c, see known_findings.json);
-the campaign is DETERMINISTIC (seeded by the constant CAMPAIGN_SEED, not by VERIF_SEED) because open findings
+Three defects found by this check were repaired in /repo (5a8bee2, 3211aad, 4ca33bd; minimised inputs in
+corpus/C19); one open known finding remains (KF-C19-b, see known_findings.json). The campaign is DETERMINISTIC
+(seeded by the constant CAMPAIGN_SEED, not by VERIF_SEED) because open findings
 are identified by the sha-256 of the failing inputs. Any failing input outside those lists is a violation."""
 import itertools
 import math
@@ -26,18 +27,24 @@ from core import proto
 from .common import case, exc_code, ordinal_instance, strict
 
 ID = "C19"
+COVER_FILES = ["properties/subdomains/ordinal/euclidean.py"]
 CAMPAIGN_SEED = 19_000_019      # constant: the failing set must be reproducible (DESIGN.md section 4)
 RULE = ("DETERMINISTIC campaign (constant seed %d; VERIF_SEED is ignored because the open known findings "
-        "KF-C19-* are identified by input). Alternatives are 1..m, data type soc, instances built with "
+        "KF-C19-b is identified by input). Alternatives are 1..m, data type soc, instances built with "
         "common.ordinal_instance. (1) planted 1-Euclidean profiles: alternatives at distinct even integers, "
         "voters at integers that are no midpoint of two alternatives (no two distances tie), m in 2..6 and 1..6 "
         "distinct orders (thorough: also m <= 9, n <= 12), each profile in several storage orders (sorted by "
-        "position, reversed, extremes in the middle, shuffled); the generator's embedding must pass c19.check "
+        "position, reversed, extremes in the middle, shuffled), plus 'nested' planted profiles (2..4 voters, "
+        "alternatives on up to four scales 200^k so that several groups of alternatives are ranked alike by all "
+        "voters, m <= 12); the generator's embedding must pass c19.check "
         "(otherwise the case is discarded and counted as 'generator-bug'); the implementation must answer True "
         "and its map {0..n-1: voters, c+n-1: alternative c}, converted exactly with fractions.Fraction, must pass "
         "c19.check. (2)/(3) small profiles (all sets of orders over 3 alternatives, all sets of <= 2 orders and "
         "sampled sets of 3..6 orders over 4 alternatives, swap-walk and random profiles over 4..6 alternatives, "
-        "n <= 6), each in several storage orders: the verdict must equal the exact reference c19.decide (in "
+        "n <= 6; relabelled 3-voter 6-alternative cores that are single-peaked and single-crossing but not "
+        "1-Euclidean in all 6 storage orders; 3..4 votes sampled from the single-peaked votes of a random axis, "
+        "m = 5, 6; profiles with 7..12 distinct orders over 5..6 alternatives: single-peaked samples, planted, "
+        "planted plus one foreign single-peaked vote), each in several storage orders: the verdict must equal the exact reference c19.decide (in "
         "particular False when c19.refuted: not single-peaked or not single-crossing) and the witness of a True "
         "answer must pass c19.check; c19.orders cases run 3..6 storage orders of one profile and demand the "
         "verdict of c19.decide for each. "
@@ -58,7 +65,7 @@ THEOREMS_FOR_OP = {
 TRUSTED = ["(R) not mirrored: is_one_euclidean (colouring from the first and last stored ballot, axis from colours, "
            "LP through python-mip/CBC, placement of the grey alternatives) and is_single_crossing, which it calls; "
            "only its observable result (bool, position map) is judged",
-           "the exact reference c19.decide is only RUN for m <= 6 alternatives and n <= 6 distinct orders; beyond "
+           "the exact reference c19.decide is only RUN for m <= 6 alternatives and n <= 12 distinct orders; beyond "
            "that size False answers are only checked on planted positives and True answers only through the "
            "witness (larger planted profiles of the thorough tier)",
            "float -> exact rational by fractions.Fraction(float) (every finite double is a dyadic rational)"]
@@ -71,8 +78,8 @@ CHUNK = 20
 
 REFUTE_MAX_M = 6     # c19.refuted enumerates m! axes and n! arrangements
 REFUTE_MAX_N = 6
-DECIDE_MAX_M = 6     # c19.decide: Fourier-Motzkin for every single-peaked axis
-DECIDE_MAX_N = 6
+DECIDE_MAX_M = 6     # c19.decide: Fourier-Motzkin for every single-peaked axis (m = 7 can take minutes)
+DECIDE_MAX_N = 12    # measured: m = 6, n <= 12 stays below 1 s per profile
 
 K_EXC, K_WIT, K_VER = "exception", "witness", "verdict"
 
@@ -97,6 +104,43 @@ def planted(rng, m, n, spread=4):
             break
     prof = sorted(seen.items(), key=lambda kv: kv[1])
     return apos, [(list(r), v) for r, v in prof]
+
+
+def nested(rng, levels):
+    """A 1-Euclidean profile with several scales: 2..4 voters at integers in a small window, a few alternatives near
+    them, and per level (scale 200^level) up to two far alternatives that every voter ranks alike (uncoloured in
+    is_one_euclidean) plus, usually, a far pair whose midpoint separates the voters (coloured, but ranked below the
+    former): forces several F/G groups in _one_euclidean_gen_sets. Returns None when the draw is unusable."""
+    n = rng.randint(2, 4)
+    vs = sorted(rng.sample(range(-6, 7), n))
+    pos = [2 * x for x in rng.sample(range(-10, 11), rng.randint(1, 3))]
+    scale = 1
+    for _ in range(levels):
+        scale *= 200
+        for _ in range(rng.randint(0, 2)):
+            pos.append(rng.choice([-1, 1]) * (scale * rng.randint(2, 5) + 2 * rng.randint(0, 20)))
+        if rng.random() < 0.85:
+            mid2 = rng.randint(2 * vs[0] + 1, 2 * vs[-1] - 1)
+            if mid2 % 2:
+                mid2 += 1
+            a = -(scale * 20 + 2 * rng.randint(0, 30))
+            pos += [a, mid2 - a]
+    pos = list(dict.fromkeys(pos))
+    m = len(pos)
+    if m < 2 or m > 12:
+        return None
+    labels = list(range(1, m + 1))
+    rng.shuffle(labels)
+    apos = dict(zip(labels, pos))
+    mids = {(apos[a] + apos[b]) // 2 for a in apos for b in apos if a != b}
+    if any(v in mids for v in vs):
+        return None
+    seen = {}
+    for v in vs:
+        seen.setdefault(tuple(sorted(apos, key=lambda a: abs(v - apos[a]))), v)
+    if len(seen) < 2:
+        return None
+    return apos, [(list(r), v) for r, v in sorted(seen.items(), key=lambda kv: kv[1])]
 
 
 def storage_orders(rng, k, extra=1):
@@ -212,6 +256,17 @@ def generate(tier, seed):
         m = 1 + i % 6
         apos, prof = planted(rng, m, 1)
         out.append(mk_planted(list(range(1, m + 1)), prof, apos, [0], [rng.choice([1, 3])], gen="planted-one", storage=0))
+    # ---- (1'') planted profiles with several scales (several groups of uncoloured alternatives), m <= 12
+    rng = random.Random(CAMPAIGN_SEED + 11)
+    cnt = 0
+    while cnt < (150 if quick else 1500):
+        res = nested(rng, rng.randint(1, 3))
+        if res is None:
+            continue
+        cnt += 1
+        apos, prof = res
+        for j, order in enumerate(storage_orders(rng, len(prof), extra=1)):
+            out.append(mk_planted(sorted(apos), prof, apos, order, [1] * len(prof), gen="planted-nested", storage=j))
     # ---- (1') larger planted profiles (thorough only)
     if not quick:
         rng = random.Random(CAMPAIGN_SEED + 3)
@@ -302,6 +357,34 @@ def generate(tier, seed):
         prof = rng.sample(sp_votes(axis), rng.randint(3, 4))
         out.append(mk_profile(sorted(axis), prof, gen="sp-sampled", storage=0))
         out.append(mk_profile(sorted(axis), prof[::-1], gen="sp-sampled", storage=1))
+
+    # ---- m <= 6 with 7..12 distinct orders (exact reference still run): votes single-peaked on one axis, planted
+    #      profiles, planted profiles plus one foreign single-peaked vote (both verdicts), two storage orders
+    rng = random.Random(CAMPAIGN_SEED + 10)
+    for i in range(120 if quick else 1200):
+        m = rng.choice([5, 6, 6])
+        n = rng.randint(7, 12)
+        kind = i % 3
+        if kind == 0:
+            axis = list(range(1, m + 1))
+            rng.shuffle(axis)
+            V = sp_votes(axis)
+            prof = rng.sample(V, min(n, len(V)))
+            tag = "many-sp-sampled"
+        else:
+            apos, pp = planted(rng, m, n)
+            prof = [r for r, _ in pp]
+            tag = "many-planted"
+            if kind == 1:
+                ax = sorted(apos, key=lambda a: apos[a])
+                W = [v for v in sp_votes(ax) if v not in prof]
+                if W:
+                    prof.append(rng.choice(W))
+                tag = "many-planted+1"
+        sh = prof[:]
+        rng.shuffle(sh)
+        out.append(mk_profile(list(range(1, m + 1)), sh, gen=tag, storage=0))
+        out.append(mk_profile(list(range(1, m + 1)), sh[::-1], gen=tag, storage=1))
 
     # ---- storage-order invariance of the verdict (one case = several storage orders of one profile)
     rng = random.Random(CAMPAIGN_SEED + 7)
@@ -561,6 +644,8 @@ def stats(c, r, mres):
            "n=%s" % (n if n <= 6 else ">6")]
     if "decide" in M:
         lab.append("exact reference run: %s" % ("Euclidean" if M["decide"] == 1 else "not Euclidean"))
+    elif c["op"] == "c19.planted":
+        lab.append("planted beyond the size of the exact reference (positive oracle + witness check only)")
     try:
         f = judge(c, r, mres)
     except Exception:
